@@ -8,10 +8,15 @@ package engine
 // facts established by their callers (KeySort$1, Length$1, NewException, collectionOf$1, exceptionalValue.Error,
 // simplify) are not claimed; they are named in DESIGN.md 5 C05.
 
+// Retract: besides the type assertions, no nil dereference - the procedure looked up is only used as a user-defined
+// procedure after the assertion to *userDefined succeeded (the table holds no nil *userDefined: entries are made from
+// &userDefined{...} only; stated as a precondition, as for text.clauses in the C20 contracts).
 //@ func Retract
 //@   property C05
-//@   safety only tassert
-//@   checks only tassert
+//@   requires vm != nil
+//@   requires[a-user-defined-procedure-in-the-table-is-an-object] forall q procedureIndicator :: has(vm.procedures, q) && vm.procedures[q] is *userDefined ==> (vm.procedures[q] as *userDefined) != nil
+//@   safety only tassert nil
+//@   checks only tassert nil
 //@   trusted-frame
 
 //@ func intPow
@@ -20,8 +25,40 @@ package engine
 //@   checks only shift
 //@   trusted-frame
 
+// writeCompoundNumberVars: also the index into the letter table; it is in range because the number is not negative,
+// which the only caller (WriteCompound, below) tests.
 //@ func writeCompoundNumberVars
 //@   property C05
-//@   safety only div0
-//@   checks only div0
+//@   requires[only-called-for-a-non-negative-number] n >= 0
+//@   safety only div0 idx
+//@   checks only div0 idx
 //@   trusted-frame
+
+// The one caller of writeCompoundNumberVars: only the precondition of that call is an obligation here.
+//@ func WriteCompound
+//@   property C05
+//@   checks only pre@call
+//@   trusted-frame
+//@   loop 1 invariant true
+
+// eval's deferred conversion: an exceptional value (overflow, zero divisor, ...) raised by an arithmetic kernel never
+// leaves eval as the raw Go value; it leaves as the evaluation_error term built for it in the caller's environment.
+//@ extern errors.As
+//@   -- "As finds the first error in err's tree that matches target, and if one is found, sets target to that error value
+//@   -- and returns true. Otherwise, it returns false. [...] An error matches target if the error's concrete value is
+//@   -- assignable to the value pointed to by target [...] As panics if target is not a non-nil pointer to either a type
+//@   -- that implements error, or to any interface type." Stated for the one target type the engine asks for (a call
+//@   -- with another target type fails this precondition instead of being framed wrongly).
+//@   requires[a-non-nil-pointer-to-the-one-error-type-this-contract-is-stated-for] target is *exceptionalValue && (target as *exceptionalValue) != nil
+//@   modifies *(target as *exceptionalValue)
+//@   ensures err == nil ==> !result
+//@   ensures err is exceptionalValue ==> result
+
+//@ func eval$1
+//@   property C05
+//@   nosafety
+//@   trusted-frame
+//@   at-call evaluationError requires[about-the-value-found-and-in-the-environment-of-the-evaluation] a0 == ev && a1 == env
+//@   ensures[an-exceptional-value-never-leaves-as-the-raw-go-value] !(err is exceptionalValue)
+//@   let raised = err
+//@   ensures[it-leaves-as-an-error-term] raised is exceptionalValue ==> err is Exception
